@@ -1300,7 +1300,7 @@ def _gen_cases(prop, tier, seed):
     quick = tier == "quick"
     cases = []
     if prop == "C04":
-        n = 250 if quick else 6000
+        n = 350 if quick else 6000
         for i in range(n):
             if i % 10 == 7:
                 # a reload while an answer is outstanding, then an answer from a service that was
@@ -1361,7 +1361,7 @@ def _gen_cases(prop, tier, seed):
                                       tags={"group": "c04/%d" % i, "role": "variant", "pos": q + 1, "mods": base.tags["mods"]}))
         return cases
     if prop == "C07":
-        n = 150 if quick else 4000
+        n = 220 if quick else 4000
         for i in range(n):
             mods = rng.choice(["xquery", "class", "core"])
             cfg = rand_cfg(rng, mods)
@@ -1433,7 +1433,7 @@ def _gen_cases(prop, tier, seed):
                 cases.append(Case("c07/%d/only%d" % (i, cid), ops, tags={"group": "c07/%d" % i, "role": "only", "cid": cid, "mods": mods}))
         return cases
     if prop == "C08":
-        n = 250 if quick else 8000
+        n = 350 if quick else 8000
         for i in range(n):
             if i % 3 == 2:
                 cases.append(malformed_case(rng, "mal/%d" % i))
@@ -1501,7 +1501,7 @@ def _gen_cases(prop, tier, seed):
                               tags={"group": "c08/%d" % i, "role": "junk", "junk": marks, "hl": hl}))
         return cases
     if prop == "C17":
-        n = 120 if quick else 3000
+        n = 180 if quick else 3000
         # the witness of F33 (fixed), every run: a rule without a class value whose name changes only in
         # letter case; on the pinned tree the client was given the name as the *old* file spelled it
         w_old = Cfg(timeout=0, services=[], rules=[("Users", [("address", "*")])])
@@ -1681,7 +1681,7 @@ def _gen_cases(prop, tier, seed):
             cases.append(Case("c17/%d/fresh" % i, header(mods, new) + pops + ["eof"],
                               tags={"group": "c17/%d" % i, "role": "fresh", "mods": mods}))
         return cases
-    n = 600 if quick else 30000
+    n = 900 if quick else 30000
     for i in range(n):
         if i % 5 == 4 and prop not in ("C06", "C11"):
             cases.append(malformed_case(rng, "mal/%d" % i))
